@@ -163,22 +163,8 @@ theorem step_everFailed {cfg : Cfg} {s : St} {d : Disk} {a : Act} (hff : a.write
     obtain ⟨s1, hs1, rfl, rfl⟩ := hs
     exact stepTr_everFailed hef hs1
 
-theorem cleanJournals_iff {s : St} {d : Disk} :
-    cleanJournals s d = true ↔ ∀ p ∈ d.journals, s.stJn ≤ p.1 → p.2.all = [] := by
-  simp only [cleanJournals, List.all_eq_true, Bool.or_eq_true, decide_eq_true_eq, List.isEmpty_iff]
-  constructor
-  · intro h p hp hge
-    rcases h p hp with h1 | h1
-    · omega
-    · exact h1
-  · intro h p hp
-    by_cases hlt : p.1 < s.stJn
-    · exact Or.inl hlt
-    · exact Or.inr (h p hp (by omega))
-
 theorem inv_step {cfg : Cfg} (hg : cfg.Good) {s : St} {d : Disk} (h : Inv cfg s d) {a : Act}
     (hff : a.faultFree = true)
-    (hcl : a = .trBegin → s.everFailed = false ∨ ∀ p ∈ d.journals, s.stJn ≤ p.1 → p.2.all = [])
     {s' : St} {d' : Disk} (hs : step cfg s d a = some (s', d')) : Inv cfg s' d' := by
   cases a with
   | wAppend recs sync o =>
@@ -232,19 +218,19 @@ theorem inv_step {cfg : Cfg} (hg : cfg.Good) {s : St} {d : Disk} (h : Inv cfg s 
   | trBegin =>
     simp only [step, Option.map_eq_some_iff, Prod.mk.injEq] at hs
     obtain ⟨s1, hs1, rfl, rfl⟩ := hs
-    exact inv_stepTr h (fun e => by cases e <;> first | exact hcl rfl | skip) hs1
+    exact inv_stepTr h hs1
   | trPut _ =>
     simp only [step, Option.map_eq_some_iff, Prod.mk.injEq] at hs
     obtain ⟨s1, hs1, rfl, rfl⟩ := hs
-    exact inv_stepTr h (fun e => by cases e <;> first | exact hcl rfl | skip) hs1
+    exact inv_stepTr h hs1
   | trCommit =>
     simp only [step, Option.map_eq_some_iff, Prod.mk.injEq] at hs
     obtain ⟨s1, hs1, rfl, rfl⟩ := hs
-    exact inv_stepTr h (fun e => by cases e <;> first | exact hcl rfl | skip) hs1
+    exact inv_stepTr h hs1
   | trDiscard =>
     simp only [step, Option.map_eq_some_iff, Prod.mk.injEq] at hs
     obtain ⟨s1, hs1, rfl, rfl⟩ := hs
-    exact inv_stepTr h (fun e => by cases e <;> first | exact hcl rfl | skip) hs1
+    exact inv_stepTr h hs1
 
 theorem inv_run {cfg : Cfg} (hg : cfg.Good) {sd sd' : St × Disk} (h : Inv cfg sd.1 sd.2)
     (hef : sd.1.everFailed = false) (as : List Act)
@@ -260,7 +246,7 @@ theorem inv_run {cfg : Cfg} (hg : cfg.Good) {sd sd' : St × Disk} (h : Inv cfg s
     | some sd1 =>
       rw [hs] at hr
       obtain ⟨s1, d1⟩ := sd1
-      exact ih (sd := (s1, d1)) (inv_step hg h (hff a List.mem_cons_self) (fun _ => Or.inl hef) hs)
+      exact ih (sd := (s1, d1)) (inv_step hg h (hff a List.mem_cons_self) hs)
         (step_everFailed (by
           have := hff a List.mem_cons_self
           cases a <;> simp_all [Act.faultFree, Act.writerFaultFree]) hef hs)
